@@ -68,6 +68,8 @@ def run_shard(spec, shard):
                 raise HarnessError(f"triangulation failed for {text!r}: {res!r}")
             feats = Q.features(ast)
         case = {"q": text, "ast": ast, "doc": doc}
+        if r.random() < 0.08:
+            case["exotic"] = r.randrange(1, 2**31)
         e = ev.Evaluator()
         e.filter_stats = []
         res = e.query(ast, doc)
